@@ -166,6 +166,21 @@ pub fn replay(input: &str, output: &str) {
         ("short-offsets".into(), b"opw_kinematics_geometric_parameters:\n  a1: 0.1\n  a2: 0.1\n  b: 0.0\n  c1: 0.1\n  c2: 0.1\n  c3: 0.1\n  c4: 0.1\nopw_kinematics_joint_offsets: [0,0,0]\n".to_vec()),
         ("long-signs".into(), b"opw_kinematics_geometric_parameters:\n  a1: 0.1\n  a2: 0.1\n  b: 0.0\n  c1: 0.1\n  c2: 0.1\n  c3: 0.1\n  c4: 0.1\nopw_kinematics_joint_sign_corrections: [1,1,1,1,1,1,1,1]\n".to_vec()),
         ("bad-deg".into(), good.replace("[0,", "[deg(x),").into_bytes()),
+        ("bad-deg-0".into(), good.replace("[0,", "[deg)90(,").into_bytes()),
+        ("bad-deg-1".into(), good.replace("[0,", "[deg)(,").into_bytes()),
+        ("bad-deg-2".into(), good.replace("[0,", "[deg(,").into_bytes()),
+        ("bad-deg-3".into(), good.replace("[0,", "[deg),").into_bytes()),
+        ("bad-deg-4".into(), good.replace("[0,", "[deg((),").into_bytes()),
+        ("bad-deg-5".into(), good.replace("[0,", "[deg(1)),").into_bytes()),
+        ("bad-deg-6".into(), good.replace("[0,", "[deg,").into_bytes()),
+        ("bad-deg-7".into(), good.replace("[0,", "[deg(),").into_bytes()),
+        ("bad-deg-8".into(), good.replace("[0,", "['deg( )',").into_bytes()),
+        ("bad-deg-9".into(), good.replace("[0,", "[deg(90,").into_bytes()),
+        ("bad-deg-10".into(), good.replace("[0,", "[(deg)90,").into_bytes()),
+        ("bad-deg-11".into(), good.replace("[0,", "[deg(9 0),").into_bytes()),
+        ("bad-deg-12".into(), good.replace("[0,", "[deg(--9),").into_bytes()),
+        ("bad-deg-13".into(), good.replace("[0,", "[deg(1e999),").into_bytes()),
+        ("bad-deg-14".into(), good.replace("[0,", "[deg(nan),").into_bytes()),
         ("unterminated".into(), b"opw_kinematics_geometric_parameters: {a1: 1.0\n".to_vec()),
         ("tabs".into(), b"opw_kinematics_geometric_parameters:\n\ta1: 1.0\n".to_vec()),
         ("huge-sign".into(), good.replace("[1,", "[99999999999,").into_bytes()),
